@@ -122,6 +122,65 @@ fn observer(kind: &'static str, count: u64) {
         match idx { Some(p) if p.exists() => { let _ = std::fs::copy(&p, &dst); } _ => { let _ = std::fs::write(snap.join(format!("idx.op{}.ev{}.absent", i, count - 1)), b""); } }
     }
 }
+#[cfg(walrus_verif)]
+mod ctl {
+    use std::cell::Cell;
+    use std::sync::{Condvar, Mutex};
+    pub struct Ctl { pub sched: Vec<usize>, pub pos: usize, pub running: Option<usize>, pub parked: Vec<bool>, pub done: Vec<bool>, pub diverged: bool }
+    pub static CTL: Mutex<Option<Ctl>> = Mutex::new(None);
+    pub static CV: Condvar = Condvar::new();
+    thread_local! { pub static TIDX: Cell<Option<usize>> = Cell::new(None); }
+    pub fn hook(_site: &'static str) {
+        if let Some(i) = TIDX.with(|c| c.get()) { park(i); }
+    }
+    fn next_allowed(c: &mut Ctl) -> Option<usize> {
+        while c.pos < c.sched.len() {
+            let t = c.sched[c.pos];
+            if t < c.done.len() && c.done[t] { c.pos += 1; c.diverged = true; continue; }
+            return if t < c.parked.len() && c.parked[t] { Some(t) } else { None };
+        }
+        c.parked.iter().position(|p| *p)
+    }
+    pub fn park(i: usize) {
+        let mut g = CTL.lock().unwrap();
+        {
+            let c = match g.as_mut() { Some(c) => c, None => return };
+            if c.running == Some(i) { c.running = None; }
+            c.parked[i] = true;
+        }
+        CV.notify_all();
+        loop {
+            {
+                let c = g.as_mut().unwrap();
+                if c.running.is_none() && next_allowed(c) == Some(i) {
+                    if c.pos < c.sched.len() { c.pos += 1; }
+                    c.running = Some(i);
+                    c.parked[i] = false;
+                    return;
+                }
+            }
+            let (ng, to) = CV.wait_timeout(g, std::time::Duration::from_secs(10)).unwrap();
+            g = ng;
+            if to.timed_out() {
+                // the schedule cannot be followed (the awaited thread never arrives): fall back to free running
+                let c = g.as_mut().unwrap();
+                c.diverged = true;
+                c.sched.truncate(c.pos);
+                if c.running.is_some() && !c.parked.iter().all(|p| *p) { continue; }
+                c.running = None;
+            }
+        }
+    }
+    pub fn finish(i: usize) {
+        let mut g = CTL.lock().unwrap();
+        if let Some(c) = g.as_mut() {
+            c.done[i] = true;
+            if c.running == Some(i) { c.running = None; }
+        }
+        drop(g);
+        CV.notify_all();
+    }
+}
 fn find_index(data: &PathBuf) -> Option<PathBuf> {
     // the instance root is the data dir or one key sub-directory of it
     let direct = data.join("read_offset_idx_index.db");
@@ -197,6 +256,12 @@ fn main() {
         if let Some(es) = op["entries"].as_array() { for e in es { all.push((topic.clone(), e)); } }
         if let Some(subs) = op["ops"].as_array() {
             for so in subs {
+                let st = so["topic"].as_str().unwrap_or("t").to_string();
+                if let Some(es) = so["entries"].as_array() { for e in es { all.push((st.clone(), e)); } }
+            }
+        }
+        if let Some(ths) = op["threads"].as_array() {
+            for so in ths.iter().flat_map(|t| t.as_array().into_iter().flatten()) {
                 let st = so["topic"].as_str().unwrap_or("t").to_string();
                 if let Some(es) = so["entries"].as_array() { for e in es { all.push((st.clone(), e)); } }
             }
@@ -301,40 +366,71 @@ fn main() {
                 "sleep_ms" => { std::thread::sleep(std::time::Duration::from_millis(op["ms"].as_u64().unwrap())); json!({"ok": true}) }
                 "list_dir" => json!({"files": list_dir(&dir)}),
                 "par" => {
-                    // sub-operations run concurrently, one thread each, released together by a barrier
-                    let subs = op["ops"].as_array().unwrap();
-                    let barrier = std::sync::Barrier::new(subs.len());
+                    // threads: one list of sub-operations per thread. With `schedule` (hooks build) the threads are
+                    // serialised: every thread parks at its start and at every verif::sched_point, and whenever nobody
+                    // runs the controller releases the thread named by the next schedule entry.
+                    let threads: Vec<Vec<Value>> = if let Some(ts) = op["threads"].as_array() {
+                        ts.iter().map(|t| t.as_array().cloned().unwrap_or_default()).collect()
+                    } else {
+                        op["ops"].as_array().unwrap().iter().map(|o| vec![o.clone()]).collect()
+                    };
+                    let n = threads.len();
+                    let controlled = op["schedule"].is_array() && cfg!(walrus_verif);
+                    #[cfg(walrus_verif)]
+                    if controlled {
+                        let sched: Vec<usize> = op["schedule"].as_array().unwrap().iter().map(|v| v.as_u64().unwrap() as usize).collect();
+                        *ctl::CTL.lock().unwrap() = Some(ctl::Ctl { sched, pos: 0, running: None, parked: vec![false; n], done: vec![false; n], diverged: false });
+                        walrus_rust::wal::verif::set_sched_hook(Some(ctl::hook));
+                    }
+                    let barrier = std::sync::Barrier::new(n);
                     let w = &insts[&iname];
                     let table_ref = &table;
                     let results: Vec<Value> = std::thread::scope(|sc| {
-                        let hs: Vec<_> = subs.iter().map(|so| {
+                        let hs: Vec<_> = threads.iter().enumerate().map(|(ti, subs)| {
                             let barrier = &barrier;
                             sc.spawn(move || {
-                                let t = so["topic"].as_str().unwrap_or("t").to_string();
-                                let bufs: Vec<Vec<u8>> = so["entries"].as_array().map(|es| es.iter().map(|e| payload(e["uid"].as_u64().unwrap(), e["len"].as_u64().unwrap() as usize)).collect()).unwrap_or_default();
+                                let _ = ti;
                                 barrier.wait();
-                                match so["op"].as_str().unwrap() {
-                                    "read_next" => match w.read_next(&t, true) {
-                                        Ok(Some(e)) => json!({"entries": [table_ref.identify(&t, &e.data)]}),
-                                        Ok(None) => json!({"entries": []}),
-                                        Err(e) => err_json(&e),
-                                    },
-                                    "batch_read" => match w.batch_read_for_topic(&t, so["budget"].as_u64().unwrap() as usize, true, None) {
-                                        Ok(v) => json!({"entries": v.iter().map(|e| table_ref.identify(&t, &e.data)).collect::<Vec<_>>()}),
-                                        Err(e) => err_json(&e),
-                                    },
-                                    "append" => match w.append_for_topic(&t, &bufs[0]) { Ok(()) => json!({"ok": true}), Err(e) => err_json(&e) },
-                                    "batch_append" => {
-                                        let refs: Vec<&[u8]> = bufs.iter().map(|b| b.as_slice()).collect();
-                                        match w.batch_append_for_topic(&t, &refs) { Ok(()) => json!({"ok": true}), Err(e) => err_json(&e) }
-                                    }
-                                    other => json!({"unsupported_op": other}),
+                                #[cfg(walrus_verif)]
+                                if controlled { ctl::TIDX.with(|c| c.set(Some(ti))); ctl::park(ti); }
+                                let mut out = Vec::new();
+                                for so in subs {
+                                    let t = so["topic"].as_str().unwrap_or("t").to_string();
+                                    let bufs: Vec<Vec<u8>> = so["entries"].as_array().map(|es| es.iter().map(|e| payload(e["uid"].as_u64().unwrap(), e["len"].as_u64().unwrap() as usize)).collect()).unwrap_or_default();
+                                    let r = catch_unwind(AssertUnwindSafe(|| match so["op"].as_str().unwrap() {
+                                        "read_next" => match w.read_next(&t, true) {
+                                            Ok(Some(e)) => json!({"entries": [table_ref.identify(&t, &e.data)]}),
+                                            Ok(None) => json!({"entries": []}),
+                                            Err(e) => err_json(&e),
+                                        },
+                                        "batch_read" => match w.batch_read_for_topic(&t, so["budget"].as_u64().unwrap() as usize, true, None) {
+                                            Ok(v) => json!({"entries": v.iter().map(|e| table_ref.identify(&t, &e.data)).collect::<Vec<_>>()}),
+                                            Err(e) => err_json(&e),
+                                        },
+                                        "append" => match w.append_for_topic(&t, &bufs[0]) { Ok(()) => json!({"ok": true}), Err(e) => err_json(&e) },
+                                        "batch_append" => {
+                                            let refs: Vec<&[u8]> = bufs.iter().map(|b| b.as_slice()).collect();
+                                            match w.batch_append_for_topic(&t, &refs) { Ok(()) => json!({"ok": true}), Err(e) => err_json(&e) }
+                                        }
+                                        other => json!({"unsupported_op": other}),
+                                    })).unwrap_or(json!({"panic": "operation panicked"}));
+                                    out.push(r);
                                 }
+                                #[cfg(walrus_verif)]
+                                if controlled { ctl::finish(ti); }
+                                json!(out)
                             })
                         }).collect();
                         hs.into_iter().map(|h| h.join().unwrap_or(json!({"panic": "thread panicked"}))).collect()
                     });
-                    json!({"results": results})
+                    #[allow(unused_mut)]
+                    let mut outv = json!({"results": results});
+                    #[cfg(walrus_verif)]
+                    if controlled {
+                        walrus_rust::wal::verif::set_sched_hook(None);
+                        if let Some(c) = ctl::CTL.lock().unwrap().take() { outv["schedule_diverged"] = json!(c.diverged); outv["schedule_used"] = json!(c.pos); }
+                    }
+                    outv
                 }
                 "corrupt" => {
                     // damage a file of the (closed) instance: overwrite bytes, truncate, or drop a stray file
